@@ -20,11 +20,19 @@ import json
 import math
 import multiprocessing as mp
 import os
+import shutil
 import sys
+import threading
 import time
 import traceback
 
 import numpy as np
+
+try:     # `kill -USR1 <worker pid>` prints where a worker is (diagnosing a case that does not return)
+    import faulthandler, signal
+    faulthandler.register(signal.SIGUSR1, all_threads=True)
+except Exception:   # noqa
+    pass
 
 ROOT = os.path.dirname(os.path.dirname(os.path.abspath(__file__)))
 OUT = os.environ.get('VERIF_OUT') or ROOT     # evidence/ and replays/ go here (scratch runs against other trees set VERIF_OUT)
@@ -495,6 +503,125 @@ class HistoryUnit:
 _UNITS = None
 _SEED = 0
 
+# ---- hang watchdog (DESIGN 3.6b) -------------------------------------------------------------------
+# A case that never returns (a search loop that does not terminate, LAPACK iterating for ever on inf while holding
+# the interpreter lock) would otherwise hang the whole check.  Every worker publishes the case it is executing in a
+# slot of shared memory (no system call per case); the master, while it waits for results, reads the slots and the
+# workers' CPU times from /proc.  When a case has used more than HANG_CPU seconds of CPU (load independent) or
+# HANG_WALL seconds of wall clock, the master kills that worker, reports a violation '<unit>:hang' for the case, counts
+# the lost task as abandoned (evidence: exhaustive=false) and carries on with the other tasks (the pool replaces the worker).
+HANG_CPU = float(os.environ.get('VERIF_HANG_CPU', 0) or 0)      # 0 = set by explore() from the tier
+HANG_WALL = float(os.environ.get('VERIF_HANG_WALL', 0) or 0)
+_NSLOTS = 256
+_SLOTW = 6            # pid, seq, wall_start, cpu_start, unit index, case index (-1: see text buffer)
+_TXT = 6000
+_SLOTS = _SLOTTXT = _SLOTCTR = None
+_MYSLOT = None
+_WATCH = {'max_cpu': 0.0, 'cpu0': 0.0}
+
+
+def _init_worker():
+    global _MYSLOT
+    if _SLOTCTR is None:
+        return
+    with _SLOTCTR.get_lock():
+        _MYSLOT = _SLOTCTR.value % _NSLOTS
+        _SLOTCTR.value += 1
+    o = _MYSLOT * _SLOTW
+    _SLOTS[o + 2] = 0.0
+    _SLOTS[o + 1] = 0.0
+    _SLOTS[o] = float(os.getpid())
+
+
+def _case_begin(ui, index, case=None):
+    _WATCH['cpu0'] = time.process_time()
+    if _MYSLOT is None:
+        return
+    o = _MYSLOT * _SLOTW
+    _SLOTS[o + 2] = 0.0                       # idle while the slot is being rewritten
+    if index is None:
+        txt = json.dumps(jsonable(case))[:_TXT - 1].encode('ascii', 'replace')
+        _SLOTTXT[_MYSLOT * _TXT:_MYSLOT * _TXT + len(txt) + 1] = txt + b'\0'
+    _SLOTS[o + 3] = _WATCH['cpu0']
+    _SLOTS[o + 4] = float(ui)
+    _SLOTS[o + 5] = float(-1 if index is None else index)
+    _SLOTS[o + 1] += 1.0
+    _SLOTS[o + 2] = time.time()
+
+
+def _case_end():
+    _WATCH['max_cpu'] = max(_WATCH['max_cpu'], time.process_time() - _WATCH['cpu0'])
+    if _MYSLOT is not None:
+        _SLOTS[_MYSLOT * _SLOTW + 2] = 0.0
+
+
+def _proc_cpu(pid):
+    try:
+        with open(f'/proc/{pid}/stat') as f:
+            t = f.read().rsplit(')', 1)[1].split()
+        return (int(t[11]) + int(t[12])) / os.sysconf('SC_CLK_TCK')
+    except Exception:   # noqa -- the process is gone
+        return None
+
+
+def _scan_hangs():
+    """master side: kill workers whose current case exceeded the limits; return one violation record per kill"""
+    out = []
+    now = time.time()
+    for k in range(min(_NSLOTS, _SLOTCTR.value)):
+        o = k * _SLOTW
+        pid, seq, w0, c0 = int(_SLOTS[o]), _SLOTS[o + 1], _SLOTS[o + 2], _SLOTS[o + 3]
+        if pid <= 0 or w0 <= 0:
+            continue
+        cpu = _proc_cpu(pid)
+        if cpu is None:
+            _SLOTS[o] = 0.0
+            continue
+        used, wall = cpu - c0, now - w0
+        if not (used > HANG_CPU or wall > HANG_WALL):
+            continue
+        if _SLOTS[o + 1] != seq or _SLOTS[o + 2] != w0:      # moved on in the meantime
+            continue
+        ui, idx = int(_SLOTS[o + 4]), int(_SLOTS[o + 5])
+        try:
+            os.kill(pid, 9)
+        except Exception:   # noqa
+            pass
+        _SLOTS[o] = 0.0
+        u = _UNITS[ui]
+        if idx >= 0:
+            case, extra = u.cases[idx], {'index': idx}
+        else:
+            raw = bytes(_SLOTTXT[k * _TXT:(k + 1) * _TXT]).split(b'\0', 1)[0].decode('ascii', 'replace')
+            try:
+                case = json.loads(raw)
+            except Exception:   # noqa -- longer than the buffer
+                case = {'truncated': raw[:2000]}
+            extra = {}
+        out.append({'unit': u.name, 'case': case, 'sig': f'{u.name}:hang', **extra,
+                    'msg': f'the case did not return: {used:.0f} s of CPU time / {wall:.0f} s of wall clock used '
+                           f'(limits {HANG_CPU:.0f} / {HANG_WALL:.0f} s; the longest case on the unchanged tree takes a small fraction of that); the worker was killed'})
+    return out
+
+
+def _run_gate(ui):
+    """determinism gate: the first case of a scope unit twice in one process, identical observations"""
+    u = _UNITS[ui]
+    d = []
+    for _ in range(2):
+        R = Recorder()
+        if u.reset:
+            u.reset()
+        _case_begin(ui, 0)
+        try:
+            u.run(u.cases[0], _SEED, R)
+        except Exception:   # noqa
+            pass
+        finally:
+            _case_end()
+        d.append((R.digest(), [v['sig'] for v in R.violations], R.outcomes))
+    return d
+
 
 def _run_scope_chunk(args):
     ui, start, stop = args
@@ -504,17 +631,21 @@ def _run_scope_chunk(args):
     viols = []
     seen_sigs = set()
     nviol = 0
+    _WATCH['max_cpu'] = 0.0
     for i in range(start, stop):
         case = u.cases[i]
         R = Recorder()
         if u.reset:
             u.reset()
+        _case_begin(ui, i)
         try:
             u.run(case, _SEED, R)
         except Exception as e:   # noqa -- see DESIGN 3.6a: deterministic, silent on the pinned tree
             tb = traceback.format_exc(limit=6)
             R.violation(f'{u.name}:exception:{type(e).__name__}', f'unhandled {type(e).__name__}: {e}\n{tb}')
             R.outcomes.append('exception')
+        finally:
+            _case_end()
         evals += R.evals
         checks += R.checks
         nontriv += 1 if R.nontriv else 0
@@ -524,15 +655,16 @@ def _run_scope_chunk(args):
             if v['sig'] not in seen_sigs and len(viols) < 500:
                 seen_sigs.add(v['sig'])
                 viols.append({'unit': u.name, 'index': i, 'case': case, **v})
-    return ui, start, stop, evals, checks, nontriv, dict(outcomes), viols, nviol
+    return ui, start, stop, evals, checks, nontriv, dict(outcomes), viols, nviol, _WATCH['max_cpu']
 
 
 def _run_history_batch(args):
     """Expand a batch of frontier histories by one event each way."""
-    ui, init_i, hists = args
+    ui, init_i, hists, bi = args
     u = _UNITS[ui]
     init = u.inits[init_i]
     out = []
+    _WATCH['max_cpu'] = 0.0
     for h in hists:
         if u.reset:
             u.reset()
@@ -545,6 +677,7 @@ def _run_history_batch(args):
             if u.reset:
                 u.reset()
             R = Recorder()
+            _case_begin(ui, None, {'init': init, 'history': h + [ev]})
             try:
                 s = u.fresh(init, _SEED)
                 for e in h:
@@ -561,9 +694,11 @@ def _run_history_batch(args):
                 tb = traceback.format_exc(limit=6)
                 R.violation(f'{u.name}:exception:{type(e).__name__}', f'unhandled {type(e).__name__}: {e}\n{tb}')
                 key = ('exception', case_key(h + [ev]))
+            finally:
+                _case_end()
             out.append((h + [ev], key, R.evals, R.checks, R.nontriv, sorted(set(R.outcomes)),
                         [{'unit': u.name, 'case': {'init': init, 'history': h + [ev]}, **v} for v in R.violations]))
-    return ui, init_i, out
+    return ui, init_i, out, bi, _WATCH['max_cpu']
 
 
 # ------------------------------------------------------------------------------------------------
@@ -585,6 +720,9 @@ class Stats:
         self.samples = []
         self.units = []
         self.capped = None
+        self.hangs = 0
+        self.hang_units = {}
+        self.wallcap = False
         self._sigs = {}
 
     def add_viols(self, viols):
@@ -601,12 +739,49 @@ class Stats:
 
 
 
-def explore(units, seed, workers, cap_s, t0):
-    global _UNITS, _SEED
+def _collect(it, ntasks, S, seen_hangs=None):
+    """Yield the results of an imap_unordered iterator; tasks lost to the hang watchdog are turned into violations."""
+    got = 0
+    while got < ntasks:
+        try:
+            res = it.next(timeout=1.0)
+            got += 1
+            yield res
+            continue
+        except mp.TimeoutError:
+            pass
+        except StopIteration:
+            return
+        global HANG_CPU
+        for rec in _scan_hangs():
+            S.add_viols([rec])
+            S.nviol += 1
+            S.hangs += 1
+            S.exhaustive = False
+            S.hang_units[rec['unit']] = S.hang_units.get(rec['unit'], 0) + 1
+            S.capped = 'cases that did not return, their tasks were abandoned: ' + ', '.join(f'{n} in unit {k}' for k, n in sorted(S.hang_units.items()))
+            got += 1      # the task that worker was running will never deliver a result
+            # the run is a violation from here on; further cases of the same kind only add detail, so wait less for them
+            HANG_CPU = min(HANG_CPU, 60.0 if S.hangs < 4 else 20.0)
+
+
+def explore(units, seed, workers, cap_s, t0, tier='quick'):
+    global _UNITS, _SEED, HANG_CPU, HANG_WALL, _SLOTS, _SLOTTXT, _SLOTCTR
     _UNITS, _SEED = units, seed
-    S = Stats()
+    HANG_CPU = HANG_CPU or (240.0 if tier == 'quick' else 1200.0)
+    HANG_WALL = HANG_WALL or 10 * HANG_CPU
     ctx = mp.get_context('fork')
-    with ctx.Pool(workers) as pool:
+    _SLOTS = ctx.RawArray('d', _NSLOTS * _SLOTW)
+    _SLOTTXT = ctx.RawArray('c', _NSLOTS * _TXT)
+    _SLOTCTR = ctx.Value('i', 0)
+    return _explore(units, seed, workers, cap_s, t0)
+
+
+def _explore(units, seed, workers, cap_s, t0):
+    S = Stats()
+    seen_hangs = set()
+    ctx = mp.get_context('fork')
+    with ctx.Pool(workers, initializer=_init_worker) as pool:
         for ui, u in enumerate(units):
             ut0 = time.time()
             if u.kind == 'scope':
@@ -616,17 +791,8 @@ def explore(units, seed, workers, cap_s, t0):
                 n = len(u.cases)
                 # determinism gate: first case twice, identical observations
                 if n:
-                    d = []
-                    for _ in range(2):
-                        R = Recorder()
-                        if u.reset:
-                            u.reset()
-                        try:
-                            u.run(u.cases[0], seed, R)
-                        except Exception:   # noqa
-                            pass
-                        d.append((R.digest(), [v['sig'] for v in R.violations], R.outcomes))
-                    if d[0] != d[1]:
+                    d = next(_collect(pool.imap_unordered(_run_gate, [ui]), 1, S, seen_hangs), None)
+                    if d is not None and d[0] != d[1]:
                         # the runs are deterministic on the unchanged tree (seeds, hash seed, RNG state are owned), so a
                         # divergence means the implementation's answer depends on what ran before: that is a violation of the
                         # 'for every input' reading of the property, not a harness failure (DESIGN 3.6a)
@@ -639,8 +805,10 @@ def explore(units, seed, workers, cap_s, t0):
                 ue = un = uc = 0
                 uo = collections.Counter()
                 done = 0
-                for res in pool.imap_unordered(_run_scope_chunk, tasks):
-                    _, s, e, evals, checks, nontriv, outcomes, viols, nviol = res
+                umaxcpu = 0.0
+                for res in _collect(pool.imap_unordered(_run_scope_chunk, tasks), len(tasks), S, seen_hangs):
+                    _, s, e, evals, checks, nontriv, outcomes, viols, nviol, mcpu = res
+                    umaxcpu = max(umaxcpu, mcpu)
                     ue += evals
                     un += nontriv
                     uc += checks
@@ -651,6 +819,7 @@ def explore(units, seed, workers, cap_s, t0):
                     if time.time() - t0 > cap_s:
                         S.exhaustive = False
                         S.capped = f'wall-clock cap {cap_s}s hit in unit {u.name} after {done}/{n} cases'
+                        S.wallcap = True
                         pool.terminate()
                         break
                 S.evals += ue
@@ -664,11 +833,12 @@ def explore(units, seed, workers, cap_s, t0):
                         S.samples.append({'unit': u.name, 'case': jsonable(u.cases[n // 2])})
                 S.units.append({'unit': u.name, 'kind': 'scope', 'cases': done, 'of': n, 'evaluations': ue,
                                 'oracle_checks': uc, 'nontrivial': un, 'outcomes': dict(uo),
-                                'wall_s': round(time.time() - ut0, 2), 'rule': u.rule})
-                if S.capped:
+                                'wall_s': round(time.time() - ut0, 2), 'max_case_cpu_s': round(umaxcpu, 3), 'rule': u.rule})
+                if S.wallcap:
                     break
             else:
                 us = ut = ue = uc = un = 0
+                umaxcpu = 0.0
                 uo = collections.Counter()
                 umax = 0
                 for init_i, init in enumerate(u.inits):
@@ -686,10 +856,11 @@ def explore(units, seed, workers, cap_s, t0):
                     while frontier and depth < u.depth:
                         depth += 1
                         bs = max(1, len(frontier) // (workers * 4) + 1)
-                        tasks = [(ui, init_i, frontier[i:i + bs]) for i in range(0, len(frontier), bs)]
+                        tasks = [(ui, init_i, frontier[i:i + bs], bi) for bi, i in enumerate(range(0, len(frontier), bs))]
                         nxt = []
-                        results = pool.map(_run_history_batch, tasks)
-                        for _, _, out in results:       # deterministic order (pool.map preserves it)
+                        results = sorted(_collect(pool.imap_unordered(_run_history_batch, tasks), len(tasks), S, seen_hangs), key=lambda r: r[3])
+                        umaxcpu = max([umaxcpu] + [r[4] for r in results])
+                        for _, _, out, _, _ in results:       # deterministic order (sorted by batch index)
                             for h, key, evals, checks, nontriv, outcomes, viols in out:
                                 ut += 1
                                 ue += evals
@@ -707,13 +878,14 @@ def explore(units, seed, workers, cap_s, t0):
                         if time.time() - t0 > cap_s:
                             S.exhaustive = False
                             S.capped = f'wall-clock cap {cap_s}s hit in unit {u.name} at depth {depth}'
+                            S.wallcap = True
                             break
                     us += len(seen)
                     if init_i == 0 and frontier:
                         S.samples.append({'unit': u.name, 'init': jsonable(init), 'history': jsonable(frontier[len(frontier) // 2])})
                     elif init_i == 0:
                         S.samples.append({'unit': u.name, 'init': jsonable(init), 'history': []})
-                    if S.capped:
+                    if S.wallcap:
                         break
                 S.states += us
                 S.transitions += ut
@@ -725,8 +897,8 @@ def explore(units, seed, workers, cap_s, t0):
                 S.units.append({'unit': u.name, 'kind': 'history', 'initial_states': len(u.inits), 'states': us,
                                 'transitions': ut, 'max_depth': umax, 'evaluations': ue, 'oracle_checks': uc,
                                 'nontrivial': un, 'outcomes': dict(uo), 'wall_s': round(time.time() - ut0, 2),
-                                'rule': u.rule})
-                if S.capped:
+                                'max_case_cpu_s': round(umaxcpu, 3), 'rule': u.rule})
+                if S.wallcap:
                     break
     return S
 
@@ -790,6 +962,8 @@ def write_evidence(pid, tier, seed, level, S, wall, assumptions, extra=None, kno
                               'so every trace is validated against the implementation by construction')
     if S.capped:
         cov['cap_hit'] = S.capped
+    cov['hang_watchdog'] = {'cpu_limit_s_per_case': HANG_CPU, 'wall_limit_s_per_case': HANG_WALL, 'tasks_abandoned': int(S.hangs),
+                            'max_case_cpu_s': max([u.get('max_case_cpu_s', 0) for u in S.units] or [0])}
     if extra:
         cov.update(extra)
     ev = {'property_id': pid, 'tier': tier, 'seed': int(seed), 'level': level, 'coverage': cov,
